@@ -172,6 +172,8 @@ fn enforcement_case(ctx: &mut Ctx, start: &str, steps: &[Value], validate_nbf: b
     if let Some(r) = &v.required_spec_claims { for c in r { if p.get(c).is_none() { p[c.as_str()] = json!("present"); } } }
     let mut sign_alg = v.algorithms.clone();
     let mut applicable = true;
+    // (the builder steps the model is given cannot express every policy that can be written into the public fields)
+    let mut model_applies = true;
     let mut expect = true;
     let req = |c: &str| v.required_spec_claims.as_ref().map_or(false, |r| r.contains(c));
     match variant {
@@ -213,6 +215,9 @@ fn enforcement_case(ctx: &mut Ctx, start: &str, steps: &[Value], validate_nbf: b
                 _ => applicable = false,
             }
         }
+        // an audience allow-list that is configured and EMPTY (the field is public): no audience is expected, so no
+        // token satisfies it - it is not the same as no audience setting at all
+        "aud-empty-allow-list" => { v.aud = Some(Default::default()); p["aud"] = json!("aud-a"); expect = false; model_applies = false; }
         "other-alg" => { sign_alg = if keys::family(&v.algorithms) == 0 { if v.algorithms == Algorithm::HS384 { Algorithm::HS256 } else { Algorithm::HS384 } } else { Algorithm::HS256 }; expect = false; }
         _ => {}
     }
@@ -243,11 +248,11 @@ fn enforcement_case(ctx: &mut Ctx, start: &str, steps: &[Value], validate_nbf: b
             (Out::Panic(site), _) => ctx.report.diff("property", entry, &format!("{}:panic:{}", entry, site.split(' ').next().unwrap_or("")), &case, json!({"panic": site})),
             _ => {}
         }
-        if out.class() != mclass {
+        if model_applies && out.class() != mclass {
             ctx.report.diff("correspondence", entry, &format!("{}:class:real-{}:model-{}:{}", entry, out.class(), mclass, variant), &case, json!({"model": m, "policy": policy_json(&v)}));
         }
     }
-    if (mclass == "ok") != expect {
+    if model_applies && (mclass == "ok") != expect {
         ctx.report.diff("internal", "decide", &format!("model-{}-expected-{}:{}", mclass, expect, variant), &case, json!({"model": m}));
     }
 }
@@ -255,7 +260,7 @@ fn enforcement_case(ctx: &mut Ctx, start: &str, steps: &[Value], validate_nbf: b
 const VARIANTS: &[&str] = &[
     "all-satisfied", "iat-future", "iat-odd", "exp-expired", "exp-within-leeway", "exp-missing", "exp-string", "nbf-future", "nbf-within-leeway", "nbf-missing", "nbf-fraction-future", "exp-fraction-expired", "nbf-at-the-boundary",
     "aud-wrong", "aud-array-disjoint", "aud-array-containing", "aud-missing", "aud-number", "iss-wrong", "iss-missing", "sub-wrong", "sub-missing",
-    "required-missing", "required-only-nested", "other-alg",
+    "required-missing", "required-only-nested", "aud-empty-allow-list", "other-alg",
 ];
 
 /// the key-binding policy is a `Validation` too: every setting of it must be enforced on the
